@@ -33,6 +33,15 @@ CHECKS["C12"] = dict(tech="TLC exhaustive model checking of Covout.tla (weights 
 CHECKS["C11"] = dict(tech="TLC exhaustive model checking of Coverage.tla (Bounded, UpperOK, ConstraintOK, NobodyEligible, MonoSpend, MonoCost, MonoCov, DtIndependent, Precedence) + every case executed through ProgramSet.get_capacities / get_prop_coverage and Program.get_prop_covered + TLC judgment (CoverageTrace.tla: CapExpect, CovExpect, Bounded, Upper, Monotone pairs, DtIndependent pairs)",
                      text="Capacity and coverage are transcribed exactly for the unsaturated branch and relationally (bounds, limits) for the saturation curve; TLC checks the clauses of the property on every case of the grid (stepped spending series, one-off / continuous, constraints per year / absolute, saturation, eligible incl. 0, step sizes, all subsets of overwrites); each case is executed in the real code on both call paths (program set and the direct call the model makes) and TLC compares / bounds the observed values, including ordered pairs for monotonicity and step-independence.",
                      ref="DESIGN.md section 6 C11", note=PURE_NOTE)
+CHECKS["C07"] = dict(tech="TLC enumeration of InitSolve.tla (initialisation structures x databook values x calibration factors; exact targets B, grid solvability) + every case run through Model construction + TLC judgment (InitSolveTrace.tla: DedicatedRefusal, NonNegative, MatchesDatabook, CharacSum, CharacRatio, CharacZeroRule, CharacInfinite)",
+                     text="The least-squares solver is specified by its postcondition: accepted non-negative sizes must reproduce every initialization quantity (value x calibration factors, fractions x their scaled denominator) within 1e-6, otherwise only the dedicated refusal is allowed. TLC computes the exact targets for every case of seven inclusion structures (determined, nested, overlapping, under- and over-determined, fractions with used and unused denominators) and judges the observed outcome; reported characteristics (nested, ratios) are checked against their member sums at every time index of the accepted runs.",
+                     ref="DESIGN.md section 6 C07", note=PURE_NOTE)
+CHECKS["C14"] = dict(tech="TLC model checking of Alloc.tla (UnresolvableSound, WitnessOK over proposals x initial allocations x totals x budget factors x absolute/relative bounds, one and two constrained years) + every case driven through Optimization.get_hard_constraints / constrain_instructions + TLC judgment (AllocTrace.tla: DedicatedSignal, ReportedUpFront, Total, Bounds, Unchanged)",
+                     text="SLSQP is specified by its postcondition (sum within 1e-6 relative, every bound met, or the dedicated rejection; a satisfying proposal unchanged; impossible constraints reported before anything is evaluated). TLC proves the feasibility theory on the specification (impossible <=> no allocation on the grid; otherwise an explicit witness) and judges the allocations the real code returns for every enumerated case.",
+                     ref="DESIGN.md section 6 C14", note=PURE_NOTE)
+CHECKS["C19"] = dict(tech="TLC enumeration of FuncParse.tla (every must-reject node kind in every argument position of every allowed node type to depth 3, two spellings; arithmetic trees with exact rational evaluation and dependency sets) + parse_function on every rendered string + TLC judgment (FuncParseTrace.tla: MustReject, MustAccept, NoSideEffect, Value, ArrayScalar, Deps)",
+                     text="The classification accept / reject is a function of 'contains a must-reject node' (checked by TLC for monotonicity under every context); every enumerated tree is rendered and parsed in a scratch directory, and TLC compares the decision; accepted arithmetic strings are evaluated on scalars and arrays and compared with exact rational evaluation (safe division) and the exact dependency set.",
+                     ref="DESIGN.md section 6 C19", note=PURE_NOTE)
 NOT_YET = {}
 
 
@@ -54,9 +63,9 @@ def main():
              hooks=dict(guard="ATOMICA_VERIF", enable="no source hooks: observation is by run-time wrappers installed by harness/observe.py (ATOMICA_VERIF=1 is exported by ./check for completeness)",
                         baseline_off_cmd="cd /repo && /venv/bin/python -m pytest -ra -q -p no:cacheprovider --timeout=900 --continue-on-collection-errors", source_commits=[], add_only=True),
              engines=[dict(name="tla-engine", path="spec/Engine.tla", serves_properties=["C01", "C02", "C03", "C04", "C05"], kind_free_text="explicit TLA+ specification of the integration loop, TLC exhaustive + replay + trace validation"),
-                      dict(name="tla-pure", path="spec/", serves_properties=["C11", "C12"], kind_free_text="per-mechanism TLA+ modules (case enumeration + theorems checked by TLC) with a trace module that judges the values returned by the real code")],
+                      dict(name="tla-pure", path="spec/", serves_properties=["C07", "C11", "C12", "C14", "C19"], kind_free_text="per-mechanism TLA+ modules (case enumeration + theorems checked by TLC) with a trace module that judges the values returned by the real code")],
              checks=checks, not_applicable=na,
-             notes="Two genuine defects repaired in /repo with 'fix:' commits (see known_findings.json). Exit codes: 0 held, 1 violation, 2 machinery failure.")
+             notes="Six genuine defects repaired in /repo with 'fix:' commits (see known_findings.json). Exit codes: 0 held, 1 violation, 2 machinery failure.")
     json.dump(m, open(os.path.join(HERE, "MANIFEST.json"), "w"), indent=1)
     print("checks", [c["property_id"] for c in checks], "not_applicable", len(na))
 
